@@ -7,6 +7,8 @@
 //!   derive_mods::drva_<m>      #[pdl_inline("...")]      first expansion in this rustc process
 //!   derive_mods::drvb_<m>      #[pdl_inline("...")]      second expansion, after other sources
 //!   derive_mods::drvf_<m>      #[pdl("<file>")]          file-based front end
+//! (the derive modules live in the separate crate `tierd_mods`, rebuilt by cargo only when
+//! rustc's dependency information requires it).
 //! The BUF-SIM workload (sim.rs) is driven against the CLI module; the very same event list
 //! is then executed against each derive module and the per-event behaviour histories
 //! (bytes written, Ok/Err values, Debug of decoded values, consumed lengths) are diffed.
@@ -17,10 +19,7 @@ mod laws;
 mod sim;
 #[path = "../../bufsim/src/simbuf.rs"]
 mod simbuf;
-#[allow(warnings, unused)]
-mod derive_mods {
-    include!(concat!(env!("TIERD_GEN"), "/derive_mods.rs"));
-}
+use tierd_mods as derive_mods;
 #[allow(warnings, unused)]
 mod gen {
     include!(concat!(env!("TIERD_GEN"), "/registry.rs"));
@@ -111,6 +110,10 @@ fn main() {
 
     let seed: u64 = args.get(2).and_then(|s| s.parse().ok()).unwrap_or(1);
     let runs: u64 = args.get(3).and_then(|s| s.parse().ok()).unwrap_or(200);
+    // optional restriction (edit-and-rebuild phase): --only <variant prefix> --module <base>
+    let opt = |name: &str| args.iter().position(|a| a == name).and_then(|i| args.get(i + 1)).cloned();
+    let only_variant = opt("--only");
+    let only_module = opt("--module");
     let mut total_runs = 0u64;
     let mut total_events = 0u64;
     let mut compared = 0u64;
@@ -118,8 +121,13 @@ fn main() {
     let mut violations: Vec<Value> = Vec::new();
     let mut families = Vec::new();
     for base in &bases {
+        if let Some(m) = &only_module {
+            if m != base {
+                continue;
+            }
+        }
         let all = &w.by_module[base];
-        let variants: Vec<String> = VARIANTS.iter().map(|v| format!("{v}{base}")).filter(|m| w.by_module.contains_key(m.as_str())).collect();
+        let variants: Vec<String> = VARIANTS.iter().filter(|v| only_variant.as_deref().map(|o| o == **v).unwrap_or(true)).map(|v| format!("{v}{base}")).filter(|m| w.by_module.contains_key(m.as_str())).collect();
         families.push(json!({"module": base, "types": all.len(), "variants": variants}));
         for run in 0..runs {
             let mut rng = Rng::for_run(seed, TAG_D ^ stable_hash(base), run);
